@@ -112,7 +112,7 @@ def check_state(res, prop, order, cs):
 def run_orders(ctx, prop):
     res = kit.Result()
     rng = ctx.rng
-    lines = chain.patch(horizon=-1)
+    lines = chain.patch(horizon=-1, interval=6, timespan=720)
     n_trees = ctx.scale(21, 45)
     limit = ctx.scale(150, 5100)
     all_exhaustive = True
@@ -123,6 +123,20 @@ def run_orders(ctx, prop):
         tree = chain.Tree(rng, keys, genesis=genesis)
         small = ti < n_trees * 2 // 3
         n = rng.randrange(5, ctx.scale(8, 9)) if small else rng.randrange(9, 22)
+        boundary = (not small) and ti % 2 == 0
+        if boundary:
+            # competing tips whose targets differ: siblings at a target-readjustment height with very different
+            # timestamps, and branches of different lengths on top of them
+            from skepticoin import consensus as _c
+            I = _c.BLOCKS_BETWEEN_TARGET_READJUSTMENT
+            while tree.cs.head().height < I - 1:
+                tree.extend(dt=rng.randrange(60, 180))
+            tip = tree.cs.current_chain_hash
+            sibs = [tree.extend(tip, dt=d) for d in rng.sample([1, 40, 120, 400, 1500], 3)]
+            res.count("boundary_sibling_targets:%d" % len({b.target for b in sibs}))
+            for _ in range(rng.randrange(1, 5)):
+                tree.extend(rng.choice(sibs + tree.blocks[-2:]).hash())
+            n = 0
         for _ in range(n - 1):
             if rng.random() < (0.75 if small else 0.3):
                 tree.extend(rng.choice(tree.blocks).hash())      # any earlier block as parent
